@@ -53,12 +53,12 @@ def float_consts():
     m = need(FI, r"_ => (1e-\d+), // Default fallback", "precision_to_step_size fallback")
     out.append(("prec_step_default_bits", f64bits(m.group(1)), "float_interval.rs precision_to_step_size _ => %s" % m.group(1)))
     n = len(re.findall(r"let tolerance = self\.step / 2\.0;", src(FI)))
-    if n != 3:
-        sys.stderr.write("gen_consts: expected 3 `self.step / 2.0` tolerances in float_interval.rs, found %d\n" % n); sys.exit(1)
-    out.append(("fi_tol_div_bits", f64bits("2.0"), "float_interval.rs contains/remove_below/remove_above: self.step / 2.0"))
+    if n < 3:
+        sys.stderr.write("gen_consts: expected at least 3 `self.step / 2.0` tolerances in float_interval.rs (contains, remove_below, remove_above[, mid]), found %d\n" % n); sys.exit(1)
+    out.append(("fi_tol_div_bits", f64bits("2.0"), "float_interval.rs contains/remove_below/remove_above/mid: self.step / 2.0"))
     n = len(re.findall(r"self\.max = self\.min - 1\.0;", src(FI)))
-    if n != 4:
-        sys.stderr.write("gen_consts: expected 4 `self.max = self.min - 1.0` in float_interval.rs, found %d\n" % n); sys.exit(1)
+    if n < 4:
+        sys.stderr.write("gen_consts: expected at least 4 `self.max = self.min - 1.0` in float_interval.rs (remove_below, remove_above[, fix_to]), found %d\n" % n); sys.exit(1)
     out.append(("fi_empty_sub_bits", f64bits("1.0"), "float_interval.rs remove_below/remove_above: self.min - 1.0"))
     need(FI, r"self\.min \+ \(self\.max - self\.min\) / 2\.0", "mid: (max-min)/2.0")
     need(FI, r"self\.max - 1\.0\s*\} else if self\.max\.is_infinite\(\) \{[^}]*self\.min \+ 1\.0", "mid: infinite-bound fallbacks +-1.0")
